@@ -438,8 +438,13 @@ func writeEvidence(p *Property, opts *Options, specs []*HarnessSpec, results []*
 		"wall_s":      wall.Seconds(),
 		"violations":  violations,
 	}
-	os.MkdirAll(filepath.Join(verifDir, "evidence"), 0755)
 	bs, _ := json.MarshalIndent(ev, "", " ")
+	if p.ID == "SELF" { // the conformance suite is not a property: its record stays with the scratch output
+		os.MkdirAll(filepath.Join(verifDir, "out", "SELF"), 0755)
+		os.WriteFile(filepath.Join(verifDir, "out", "SELF", "evidence.json"), bs, 0644)
+		return
+	}
+	os.MkdirAll(filepath.Join(verifDir, "evidence"), 0755)
 	os.WriteFile(filepath.Join(verifDir, "evidence", p.ID+".json"), bs, 0644)
 }
 
